@@ -184,6 +184,7 @@ func (s *Skiplist) NewLevel(randFn func() float32) int {
 
 	level := int(atomic.LoadInt32(&s.level))
 	if nextLevel > level {
+		verifYield(3) // verif: yield point (NewLevel before CAS)
 		if atomic.CompareAndSwapInt32(&s.level, int32(level), int32(level+1)) {
 			nextLevel = level + 1
 		} else {
